@@ -70,8 +70,8 @@ def gen_case(st, prop, index=None, tier='quick'):
         mode = weighted(r, [('doc', 42), ('alphabet', 18), ('deep', 10), ('corpus', 4),
                             ('sweep', 6), ('repeat', 8), ('wellformed', 5), ('cause', 7)])
     else:
-        mode = weighted(r, [('recover', 45), ('doc', 28), ('alphabet', 13),
-                            ('deep', 5), ('corpus', 4), ('repeat', 5)])
+        mode = weighted(r, [('recover', 45), ('doc', 26), ('alphabet', 12),
+                            ('deep', 5), ('corpus', 4), ('repeat', 4), ('verydeep', 4)])
     if mode == 'recover':
         return g_recover(st, nalts=16 if tier == 'thorough' else 3)
     return GENERATORS[mode](st)
@@ -196,6 +196,31 @@ def g_sweep(st):
             'form': _form(st), 'skip_envs': [], 'recover': False, 'depth': 0}
 
 
+def g_verydeep(st):
+    """A VALID nest far deeper than C06's bound of 40 (C07 has no depth bound):
+    brace groups, command arguments and environments to depth 41-250, so that
+    strict succeeds and the two modes can be compared."""
+    r = st['doc']
+    depth = r.randrange(41, 131)
+    opens, closes = [], []
+    for d in range(depth):
+        k = r.randrange(10)
+        if k < 6:
+            opens.append('{')
+            closes.append('}')
+        elif k < 9:
+            opens.append('\\' + docgen.PLAIN_CMD_NAMES[r.randrange(len(docgen.PLAIN_CMD_NAMES))] + '{')
+            closes.append('}')
+        else:
+            opens.append('\\begin{e}')
+            closes.append('\\end{e}')
+        if r.random() < 0.1:
+            opens.append('t ')
+    wire = opens + ['x'] + closes[::-1]
+    return {'mode': 'verydeep', 'profile': 'verydeep', 'plan': 'tokens', 'wire': wire, 'faults': [],
+            'form': _form(st), 'skip_envs': [], 'recover': False, 'depth': depth}
+
+
 def g_wellformed(st):
     """A fault-free document of the restricted sub-grammar (no math, verbatim or
     list regions; every bracket an argument delimiter): it contains nothing a
@@ -265,7 +290,8 @@ def g_recover(st, nalts=3):
             'what': what, 'alts': alts, 'depth': d.max_depth()}
 
 
-GENERATORS = {'doc': g_doc, 'deep': g_deep, 'repeat': g_repeat, 'wellformed': g_wellformed, 'cause': g_cause, 'alphabet': g_alphabet,
+GENERATORS = {'doc': g_doc, 'deep': g_deep, 'repeat': g_repeat, 'wellformed': g_wellformed, 'cause': g_cause,
+              'verydeep': g_verydeep, 'alphabet': g_alphabet,
               'corpus': g_corpus, 'sweep': g_sweep, 'recover': g_recover}
 
 
@@ -488,6 +514,66 @@ def _diagnose(D, T, closers, droppable):
 # ---------------------------------------------------------------------------
 # execution
 # ---------------------------------------------------------------------------
+def _c07_verdict(case, outs, D, budget, count, extra_summary):
+    v = None
+    s0, s1 = outs[0], outs[1]
+    hang = s0.kind == 'hang' or s1.kind == 'hang'
+    if s0.kind == 'tree' and not hang:
+        count('c07.a.evaluated')
+        if s1.kind != 'tree':
+            v = {'class': 'tolerant-differs', 'detail': 'strict returns a tree, tolerant: %s'
+                 % s1.brief()}
+        else:
+            r0, r1 = repr(s0.soup.expr), repr(s1.soup.expr)
+            t0, t1 = str(s0.soup), str(s1.soup)
+            if r0 != r1 or t0 != t1:
+                v = {'class': 'tolerant-differs',
+                     'detail': 'strict and tolerant trees differ: %r vs %r' % (t0[:80], t1[:80])}
+    if v is None and case.get('recover') and not hang:
+        # precondition: the intact document parses strictly and round-trips
+        base = ''.join(case['wire'])
+        b = texapi.parse(base, tolerance=0, budget=tick_budget(len(base)))
+
+        if b.kind == 'tree' and str(b.soup) == base and D != base:
+            count('c07.b.evaluated')
+            count('c07.b.' + case.get('what', '?'))
+            if s0.kind == 'tree':
+                v = {'class': 'strict-accepts-broken',
+                     'detail': 'document that lost a closer (%s) is accepted by strict parsing'
+                               % case.get('what')}
+            elif s1.kind != 'tree':
+                v = {'class': 'tolerant-fails',
+                     'detail': 'tolerant parsing of a document that lost one closer (%s): %s %s'
+                               % (case.get('what'), s1.brief(), s1.msg)}
+            if s0.kind != 'tree' and s1.kind == 'tree':
+                count('probe.strict-error-and-tolerant-tree')
+        else:
+            count('precondition_unmet')
+    if v is None and s1.kind == 'tree' and not hang:
+        if c08_side_conditions(D):
+            count('c07.c.evaluated')
+            T = str(s1.soup)
+            ok, nins, why, at = align(D, T, allow_insert=(s0.kind != 'tree'))
+            if not ok:
+                cls = why.split(' ')[0]
+                extra_summary.update({'D_at': D[at[0]:at[0] + 1], 'D_before': D[:at[0]],
+                                      'T_at': T[at[1]:at[1] + 12]})
+                v = {'class': cls, 'detail': 'tolerant output is not the input plus closers: '
+                     + why + (' (strict parse succeeded: no insertion allowed)'
+                              if s0.kind == 'tree' else '')}
+            else:
+                if nins >= 2:
+                    count('probe.inserted>=2')
+                if nins == 1:
+                    count('probe.inserted==1')
+                if nins == -1:
+                    count('c07.c.search-too-large')
+        else:
+            count('c07.c.side-condition-skip')
+    return v
+
+
+
 def execute(case, props=('C06', 'C07')):
     """Run one case; a recover case may carry alternative single faults on the
     same document, which are executed in turn until one violates."""
@@ -623,64 +709,14 @@ def execute_one(case, props=('C06', 'C07')):
 
     # ---------------- C07 ----------------
     if 'C07' in props:
-        v = None
-        s0, s1 = outs[0], outs[1]
-        hang = s0.kind == 'hang' or s1.kind == 'hang'
-        if s0.kind == 'tree' and not hang:
-            count('c07.a.evaluated')
-            if s1.kind != 'tree':
-                v = {'class': 'tolerant-differs', 'detail': 'strict returns a tree, tolerant: %s'
-                     % s1.brief()}
-            else:
-                r0, r1 = repr(s0.soup.expr), repr(s1.soup.expr)
-                t0, t1 = str(s0.soup), str(s1.soup)
-                if r0 != r1 or t0 != t1:
-                    v = {'class': 'tolerant-differs',
-                         'detail': 'strict and tolerant trees differ: %r vs %r' % (t0[:80], t1[:80])}
-        if v is None and case.get('recover') and not hang:
-            # precondition: the intact document parses strictly and round-trips
-            base = ''.join(case['wire'])
-            b = texapi.parse(base, tolerance=0, budget=tick_budget(len(base)))
-            ticks += b.ticks
-            if b.kind == 'tree' and str(b.soup) == base and D != base:
-                count('c07.b.evaluated')
-                count('c07.b.' + case.get('what', '?'))
-                if s0.kind == 'tree':
-                    v = {'class': 'strict-accepts-broken',
-                         'detail': 'document that lost a closer (%s) is accepted by strict parsing'
-                                   % case.get('what')}
-                elif s1.kind != 'tree':
-                    v = {'class': 'tolerant-fails',
-                         'detail': 'tolerant parsing of a document that lost one closer (%s): %s %s'
-                                   % (case.get('what'), s1.brief(), s1.msg)}
-                if s0.kind != 'tree' and s1.kind == 'tree':
-                    count('probe.strict-error-and-tolerant-tree')
-            else:
-                count('precondition_unmet')
-        if v is None and s1.kind == 'tree' and not hang:
-            if c08_side_conditions(D):
-                count('c07.c.evaluated')
-                T = str(s1.soup)
-                ok, nins, why, at = align(D, T, allow_insert=(s0.kind != 'tree'))
-                if not ok:
-                    cls = why.split(' ')[0]
-                    extra_summary.update({'D_at': D[at[0]:at[0] + 1], 'D_before': D[:at[0]],
-                                          'T_at': T[at[1]:at[1] + 12]})
-                    v = {'class': cls, 'detail': 'tolerant output is not the input plus closers: '
-                         + why + (' (strict parse succeeded: no insertion allowed)'
-                                  if s0.kind == 'tree' else '')}
-                else:
-                    if nins >= 2:
-                        count('probe.inserted>=2')
-                    if nins == 1:
-                        count('probe.inserted==1')
-                    if nins == -1:
-                        count('c07.c.search-too-large')
-            else:
-                count('c07.c.side-condition-skip')
-        verdicts['C07'] = v
+        try:
+            verdicts['C07'] = _c07_verdict(case, outs, D, budget, count, extra_summary)
+        except RecursionError:
+            # printing a very deep tree exhausted the interpreter stack inside the harness
+            count('c07.recursion-skip')
+            verdicts['C07'] = None
 
-    nontrivial = bool(applied) or case['mode'] in ('alphabet', 'repeat', 'tail', 'wellformed', 'cause')
+    nontrivial = bool(applied) or case['mode'] in ('alphabet', 'repeat', 'tail', 'wellformed', 'cause', 'verydeep')
     return {'verdicts': verdicts, 'log': log, 'digest': digest(log), 'counters': counters,
             'ticks': ticks, 'key': digest([D, case.get('skip_envs', [])]),
             'nontrivial': nontrivial, 'D': D, 'extra_summary': extra_summary, 'buckets': buckets,
